@@ -495,7 +495,7 @@ func (p c03) runHistory(c *core.Ctx, items []c03item, compound int) {
 				if !restored && r.Chance(1, 12) {
 					restored = true
 					snap := pair.R.DR.Snapshot()
-					if err := pair.R.DR.RestoreAt(snap); err != nil {
+					if err := pair.R.RestoreAt(snap); err != nil {
 						c.Violate("restoring a runner from its own snapshot failed: "+err.Error(), map[string]any{"readers": scripts})
 						return
 					}
